@@ -8,7 +8,8 @@
 //	                                     alternating blocks of <blk> bytes; the bytes depend on (attempt, stream,
 //	                                     position); exits 1 during the first <failfirst> attempts (counter file)
 //
-// A case = one step with {stdout: file, stderr: file, output: variable, script:} x retry limit x streams x size,
+// A case = one step - or one lifecycle handler (onExit / onSuccess / onFailure / onCancel; Handler field), which is a
+// step with a status and a log as well - with {stdout: file, stderr: file, output: variable, script:} x retry limit x streams x size,
 // run by the real scheduler.Scheduler (pause shortened through the verif hook) with real `sh` children.
 // Observed: which files exist afterwards, their length, the number of stdout-/stderr-pattern bytes in them and
 // SHA-256 of the whole content and of the two projections - the check rebuilds the expected bytes from the model.
@@ -75,6 +76,7 @@ type Case struct {
 	Blk      int    `json:"blk"`      // emitter block size
 	SlowDone int    `json:"slowdone"` // ms the reader of the done channel takes per node (0: prompt reader / no channel)
 	Done     int    `json:"done"`     // 1: Schedule gets a done channel with a prompt reader, as the agent passes one
+	Handler  string `json:"handler"`  // "": the printing node is a step; exit | success | failure | cancel: that handler
 	// observations
 	Hang       bool                `json:"hang"`
 	Err        string              `json:"err,omitempty"`
@@ -279,7 +281,16 @@ func workerMain() {
 	counter := filepath.Join(dir, "counter")
 	emit := fmt.Sprintf("exec %s emit %s %d %d %d %d", self(), counter, c.Fails, outN, errN, c.Blk)
 	var y strings.Builder
-	y.WriteString("name: c12\nsteps:\n  - name: st\n")
+	switch c.Handler {
+	case "":
+		y.WriteString("name: c12\nsteps:\n  - name: st\n")
+	case "failure":
+		y.WriteString("name: c12\nsteps:\n  - name: main\n    command: \"false\"\nhandlerOn:\n  failure:\n")
+	case "cancel":
+		y.WriteString("name: c12\nsteps:\n  - name: main\n    command: sleep 5\nhandlerOn:\n  cancel:\n")
+	default:
+		y.WriteString("name: c12\nsteps:\n  - name: main\n    command: \"true\"\nhandlerOn:\n  " + c.Handler + ":\n")
+	}
 	if c.Script {
 		y.WriteString("    command: sh\n    script: |\n      " + emit + "\n")
 	} else {
@@ -315,8 +326,16 @@ func workerMain() {
 		return
 	}
 	logDir := filepath.Join(dir, "logs")
-	sc := scheduler.New(&scheduler.Config{LogDir: logDir, Logger: lg, ReqID: "c12c12c12", MaxActiveRuns: 1})
+	cfg := &scheduler.Config{LogDir: logDir, Logger: lg, ReqID: "c12c12c12", MaxActiveRuns: 1,
+		OnExit: d.HandlerOn.Exit, OnSuccess: d.HandlerOn.Success, OnFailure: d.HandlerOn.Failure, OnCancel: d.HandlerOn.Cancel}
+	sc := scheduler.New(cfg)
 	sc.VerifSetPause(time.Millisecond)
+	if c.Handler == "cancel" {
+		go func() { // a stop request while the step sleeps
+			time.Sleep(150 * time.Millisecond)
+			sc.Signal(g, syscall.SIGTERM, nil, false)
+		}()
+	}
 	ctx := dag.NewContext(context.Background(), d, nil, "c12c12c12", filepath.Join(dir, "sched.log"))
 	var done chan *scheduler.Node
 	var rd sync.WaitGroup
@@ -341,6 +360,16 @@ func workerMain() {
 		rd.Wait()
 	}
 	nd := g.NodeData()[0]
+	if c.Handler != "" {
+		ht := map[string]dag.HandlerType{"exit": dag.HandlerOnExit, "success": dag.HandlerOnSuccess, "failure": dag.HandlerOnFailure, "cancel": dag.HandlerOnCancel}[c.Handler]
+		hn := sc.HandlerNode(ht)
+		if hn == nil {
+			c.Err = "the handler did not run"
+			put()
+			return
+		}
+		nd = hn.Data()
+	}
 	c.NodeStatus = nd.State.Status.String()
 	c.RetryCount = nd.State.RetryCount
 	c.LogName = filepath.Base(nd.State.Log)
@@ -568,7 +597,7 @@ func main() {
 				continue
 			}
 			in := Case{Stream: c.Stream, Stdout: c.Stdout, Stderr: c.Stderr, Output: c.Output, Script: c.Script, Retries: c.Retries,
-				Fails: c.Fails, Emit: c.Emit, Size: c.Size, Blk: c.Blk, SlowDone: c.SlowDone, Done: c.Done}
+				Fails: c.Fails, Emit: c.Emit, Size: c.Size, Blk: c.Blk, SlowDone: c.SlowDone, Done: c.Done, Handler: c.Handler}
 			add(&in)
 		}
 	} else {
@@ -615,6 +644,21 @@ func main() {
 			}
 			c.Blk = []int{0, 1 + rng.Below(9000), 4096, 512}[rng.Below(4)]
 			add(c)
+		}
+		// lifecycle handlers are steps too: each kind, exit 0 / non-zero, plain / stdout: / output: / both
+		hk := []string{"exit", "success", "failure", "cancel"}
+		for i, kind := range hk {
+			for fails := 0; fails <= 1; fails++ {
+				for w := 0; w < 4; w++ {
+					if tier != "thorough" && (i+fails+w)%2 == 1 { // quick: half of the 32 combinations, every kind x exit code x wiring pair-wise
+						continue
+					}
+					c := &Case{Stream: "handler", Handler: kind, Stdout: w&1 == 1, Output: w&2 == 2, Stderr: rng.Chance(1, 4), Script: rng.Chance(1, 4),
+						Fails: fails, Emit: emits[rng.Below(3)], Size: []int{1, 10, 4095, 4096, 4097, 70000}[rng.Below(6)], Blk: blks[rng.Below(len(blks))],
+						Done: rng.Below(2)}
+					add(c)
+				}
+			}
 		}
 		// a slow reader of the done channel (the agent writes the status file there): the stale worker of a
 		// failed attempt is still before its teardown when the next attempt is set up
